@@ -61,3 +61,34 @@ package coreutil
 //@ ensures [passes-through] result == result_of(s.Schedule.Left, 0) && calls(s.Schedule.Left) == 1
 //@ ensures [finish-reported-exactly-once] ev(on_finish) - old(ev(on_finish)) == ite(result == 0 && !old(once(s.onFinishOnce)), 1, 0)
 //@ ensures [finish-is-remembered] imp(result == 0 || old(once(s.onFinishOnce)), once(s.onFinishOnce))
+
+// ---------------------------------------------------------------- small helpers used by providers and aggregators
+
+// A sample that was borrowed from a pool goes back exactly once; any other sample is left alone.
+//@ func ReturnSampleIfBorrowed
+//@ modifies nothing
+//@ props C06 C11
+//@ ensures [borrowed-samples-are-returned-once] iff(typeis(s, core.BorrowedSample), calls(borrowed.Return) == 1) && calls(borrowed.Return) <= 1
+
+// (ResetReusedAmmo stays without a block: what it changes is the object behind an interface value, whichever type that is,
+// and the frame language cannot name that; with a block and no frame its callers would lose everything they know about the heap.)
+
+// No size means the default, a tiny size means the minimum; never below the minimum.
+//@ func (conf BufferSizeConfig) BufferSizeOrDefault
+//@ props C08 C13
+//@ modifies nothing
+//@ ensures [default-when-unset] imp(conf.BufferSize == 0, result == DefaultBufferSize)
+//@ ensures [never-below-the-minimum] result >= MinimalBufferSize
+//@ ensures [otherwise-as-configured] imp(int(conf.BufferSize) > MinimalBufferSize, result == int(conf.BufferSize))
+
+//@ func (f DataSinkFunc) OpenSink
+//@ modifies nothing
+//@ props C06
+//@ requires f != nil
+//@ ensures calls(f) == 1 && wc == result_of(f, 0) && err == result_of(f, 1)
+
+//@ func (f DataSourceFunc) OpenSource
+//@ modifies nothing
+//@ props C08
+//@ requires f != nil
+//@ ensures calls(f) == 1 && rc == result_of(f, 0) && err == result_of(f, 1)
